@@ -1,8 +1,13 @@
 /-
-Monitors: executable forms of the router properties, evaluated on the observable trace
-(op, observed output) of the IMPLEMENTATION by the driver, and (Proofs/) proved to accept every
-trace of the model. One `MonState` serves all router properties; `prop` selects which clauses
-are reported.
+Monitors: executable forms of the router properties, evaluated by the driver on the observable
+trace (op, observed output) of the IMPLEMENTATION, together with the ghost history of the model
+(spec-level events: registered / removed / accepted / appended / subscribed / committed …),
+which is trustworthy as long as model and implementation have agreed on every output so far.
+A monitor failure is a concrete violation of a property by the implementation (the replay is
+the op list of the case). Proofs/ show that the model's own traces are accepted.
+
+One `MonState` serves all router properties; failures carry a tag whose prefix names the
+property (`c01-…`, `c06-…`, …); `./check Cxx` reports the tags relevant to Cxx.
 -/
 import Model.Router.Step
 namespace Router.Monitors
@@ -12,19 +17,446 @@ inductive Obs
   | out (o : Out)
   | panic
 
+/-- one subscription as the spec sees it -/
+structure Sub where
+  path : String
+  qos : Nat
+  idx : Nat
+  group : Option String
+  start : Nat                 -- abs offset in the filter log at which it took effect / resumes
+  closedAt : Option Nat := none  -- closed (unsubscribed / connection removed): only entries < closedAt may still arrive
+  replayOpen : Bool := false  -- C15: new non-shared subscription whose retained replay may still arrive
+  since : Nat := 0            -- op counter when it took effect
+  replayed : List String := []   -- topics whose retained message was replayed through this subscription
+deriving Repr
+
+/-- forwarded QoS>0 entry awaiting the client's acknowledgement (C08 resume point, C09 window) -/
+structure Pending where
+  pkid : Nat
+  subIx : Option Nat          -- attributed subscription (index into `subs`) when unambiguous
+  abs : Option Nat
+deriving Repr
+
+structure LinkMon where
+  clientId : String := ""
+  clean : Bool := true
+  connId : Option Nat := none
+  live : Bool := false                   -- registered and not removed
+  expectConnack : Bool := false
+  subs : List Sub := []
+  /-- alternative attributions: one pointer per subscription (next abs offset to deliver) -/
+  configs : List (List Nat) := [[]]
+  ambiguous : Bool := false              -- attribution space exceeded the cap: C01 checks off for this link
+  expectAcks : List Ack := []            -- committed by the router for this connection, not yet seen (C06)
+  window : List Nat := []                -- pkids of QoS>0 forwards seen and not yet acknowledged by the link (C09)
+  pendingAcks : List Pending := []
+  mayConnack : Bool := true
+  maxWindow : Nat := 0
+deriving Repr
+
+structure Saved where
+  clientId : String
+  subs : List Sub
+  fuzzy : Bool := false        -- resume points not determined uniquely by what the link saw
+deriving Repr
+
+structure GroupMon where
+  name : String
+  idx : Nat
+  delivered : List Nat := []
+  stableFrom : Nat := 0
+  fuzzy : Bool := false
+deriving Repr
+
 structure MonState where
   cfg : Option Config := none
+  t : Nat := 0
+  links : List LinkMon := []
+  hist : List (List Pub) := []           -- per filter index: every entry ever appended (abs = position)
+  sessions : List Saved := []            -- persistent sessions of disconnected clients
+  groups : List GroupMon := []
+  retainedHist : List (String × Nat × Option Pub) := []   -- (topic, time, value) most recent last
+  liveCount : Nat := 0
+  spun : Bool := false
 
 def MonState.init (c : Config) : MonState := { cfg := some c }
 
-/-- one observed step of the implementation -/
-def observe (prop : String) (m : MonState) (_op : Op) (o : Obs) : MonState × Option (String × String) :=
-  match o with
-  | .panic =>
-    -- C03: the routing core never panics, whatever the events; C14: nor because of another client
-    if prop = "C03" || prop = "C14" then (m, some ("router-panic", "routing core panicked")) else (m, none)
-  | .out _ => (m, none)
+abbrev Fail := Option (String × String)
 
-def atIdle (_prop : String) (_m : MonState) : Option (String × String) := none
+def getL (m : MonState) (l : Nat) : LinkMon := m.links[l]?.getD {}
+def setL (m : MonState) (l : Nat) (x : LinkMon) : MonState :=
+  { m with links := if l < m.links.length then m.links.set l x
+                    else m.links ++ List.replicate (l - m.links.length) {} ++ [x] }
+
+def linkOfConn (m : MonState) (id : Nat) : Option Nat :=
+  m.links.findIdx? (fun x => x.live && x.connId == some id)
+
+def histOf (m : MonState) (idx : Nat) : List Pub := m.hist[idx]?.getD []
+
+/-- does forward `f` carry entry `e` (topic may have been cleared when a broker alias is reused) -/
+def sameMessage (f e : Pub) : Bool :=
+  f.payload == e.payload && (f.topic == e.topic || (f.topic.isEmpty && f.alias.isSome))
+
+def listSet {α} (l : List α) (i : Nat) (a : α) : List α := l.set i a
+
+/-- candidates for one configuration: (new configuration, sub index, abs offset) -/
+def candidates (m : MonState) (lm : LinkMon) (cfg : List Nat) (f : Pub) : List (List Nat × Nat × Nat) :=
+  (lm.subs.zipIdx).filterMap fun (s, i) =>
+    let ptr := cfg[i]?.getD s.start
+    if s.qos != f.qos then none else
+    let h := histOf m s.idx
+    let bound := match s.closedAt with | some u => u | none => h.length
+    match s.group with
+    | none =>
+      if ptr < bound then
+        match h[ptr]? with
+        | some e => if sameMessage f e then some (listSet cfg i (ptr + 1), i, ptr) else none
+        | none => none
+      else none
+    | some _ =>
+      -- shared: any later entry, in increasing order per member
+      match ((h.zipIdx).drop ptr).find? (fun (e, a) => a < bound && sameMessage f e) with
+      | some (_, a) => some (listSet cfg i (a + 1), i, a)
+      | none => none
+
+def dedup {α} [BEq α] (l : List α) : List α := l.foldl (fun acc x => if acc.contains x then acc else acc ++ [x]) []
+
+def CAP : Nat := 48
+
+/-- retained value of `topic` at time `t` according to the history -/
+def retainedValuesSince (m : MonState) (topic : String) (since : Nat) : List Pub :=
+  -- values set at or after `since`, plus the value in force at `since`
+  let evs := m.retainedHist.filter (fun e => e.1 == topic)
+  let before := (evs.filter (fun e => e.2.1 < since)).getLast?
+  let after := evs.filter (fun e => e.2.1 ≥ since)
+  ((match before with | some (_, _, some p) => [p] | _ => []) ++ after.filterMap (fun e => e.2.2))
+
+def currentRetained (m : MonState) (topic : String) : Option Pub :=
+  match ((m.retainedHist.filter (fun e => e.1 == topic)).getLast?) with
+  | some (_, _, v) => v
+  | none => none
+
+/-- one forward observed on link `l` -/
+def observeForward (m : MonState) (l : Nat) (f : Pub) : MonState × Fail :=
+  let lm := getL m l
+  -- C09: window bound and id uniqueness, from the link's point of view
+  let (lm, f9) : LinkMon × Fail :=
+    if f.qos = 0 then (lm, none) else
+    if f.pkid = 0 then (lm, some ("c09-zero-pkid", "QoS>0 forward with packet id 0"))
+    else if lm.window.contains f.pkid then
+      (lm, some ("c09-duplicate-pkid", s!"packet id {f.pkid} is still unacknowledged on this connection"))
+    else if lm.window.length + 1 > 100 then
+      ({ lm with window := lm.window ++ [f.pkid] }, some ("c09-window-exceeded", s!"{lm.window.length + 1} unacknowledged QoS>0 publishes"))
+    else ({ lm with window := lm.window ++ [f.pkid], maxWindow := max lm.maxWindow (lm.window.length + 1) }, none)
+  if f9.isSome then (setL m l lm, f9) else
+  if f.retain then
+    -- C15: a retained-flagged forward must be the replay of a new non-shared subscription
+    match utf8? f.topic with
+    | none => (setL m l lm, some ("c15-retained-unexpected", "retained-flagged forward with a non-UTF-8 topic"))
+    | some topic =>
+      let good (s : Sub) : Bool :=
+        s.replayOpen && s.qos == f.qos && topicMatches topic s.path && !s.replayed.contains topic &&
+          (retainedValuesSince m topic s.since).any (fun v => v.payload == f.payload)
+      let ok := lm.subs.any good
+      let lm := if f.qos = 0 then lm else { lm with pendingAcks := lm.pendingAcks ++ [{ pkid := f.pkid, subIx := none, abs := none }] }
+      let ix := lm.subs.findIdx? good
+      let lm := match ix with
+        | some i => { lm with subs := (lm.subs.zipIdx).map (fun (s, j) => if j == i then { s with replayed := s.replayed ++ [topic] } else s) }
+        | none => lm
+      if ok then (setL m l lm, none)
+      else (setL m l lm, some ("c15-retained-unexpected",
+        s!"retained-flagged forward on topic {topic} is not the replay of a new non-shared subscription with the retained value"))
+  else
+  if lm.ambiguous then
+    let lm := if f.qos = 0 then lm else { lm with pendingAcks := lm.pendingAcks ++ [{ pkid := f.pkid, subIx := none, abs := none }] }
+    (setL m l lm, none) else
+  let cands := lm.configs.flatMap (fun cfg => candidates m lm cfg f)
+  if cands.isEmpty then
+    (setL m l lm, some ("c01-unexpected-forward",
+      s!"forward qos={f.qos} payload={String.ofList (f.payload.map (fun b => Char.ofNat b.toNat))} is not the next undelivered message of any subscription of this connection (no match, out of order, duplicate or gap)"))
+  else
+    let cfgs := dedup (cands.map (·.1))
+    let picks := dedup (cands.map (fun c => (c.2.1, c.2.2)))
+    let unique := picks.length == 1
+    let (si, ab) := match picks.head? with | some p => (some p.1, some p.2) | none => (none, none)
+    let lm := if f.qos = 0 then lm else
+      { lm with pendingAcks := lm.pendingAcks ++
+          [{ pkid := f.pkid, subIx := if unique then si else none, abs := if unique then ab else none }] }
+    let lm := if cfgs.length > CAP then { lm with ambiguous := true, configs := cfgs.take 1 } else { lm with configs := cfgs }
+    let m := setL m l lm
+    -- C17: through a group every entry goes to at most one member, never twice
+    match si, ab with
+    | some i, some a =>
+      match lm.subs[i]? with
+      | some s =>
+        match s.group with
+        | some g =>
+          if !unique then
+            ({ m with groups := m.groups.map (fun gm => if gm.name == g && gm.idx == s.idx then { gm with fuzzy := true } else gm) }, none)
+          else
+            match m.groups.find? (fun gm => gm.name == g && gm.idx == s.idx) with
+            | some gm =>
+              if gm.delivered.contains a && !gm.fuzzy then
+                (m, some ("c17-delivered-twice", s!"entry {a} of group {g} was already forwarded to a member"))
+              else
+                ({ m with groups := m.groups.map (fun x => if x.name == g && x.idx == s.idx then { x with delivered := x.delivered ++ [a] } else x) }, none)
+            | none => (m, none)
+        | none => (m, none)
+      | none => (m, none)
+    | _, _ => (m, none)
+
+/-- one ack notification observed on link `l` (C06: exactly the committed acks, in order) -/
+def observeAck (m : MonState) (l : Nat) (a : Ack) : MonState × Fail :=
+  let lm := getL m l
+  match a with
+  | .connack id sp =>
+    -- C08 / C19: a CONNACK only for a registered session, with the right session-present flag
+    match lm.expectAcks with
+    | .connack id' sp' :: rest =>
+      if id = id' && sp = sp' then (setL m l { lm with expectAcks := rest }, none)
+      else (setL m l { lm with expectAcks := rest },
+            some (if sp != sp' then "c08-session-present" else "c06-ack-mismatch",
+                  s!"CONNACK id={id} session_present={sp}, expected id={id'} session_present={sp'}"))
+    | _ => (m, some ("c19-unexpected-connack", "CONNACK on a link whose CONNECT must not create a session (or a second CONNACK)"))
+  | _ =>
+    match lm.expectAcks with
+    | e :: rest =>
+      if e == a then (setL m l { lm with expectAcks := rest }, none)
+      else (setL m l { lm with expectAcks := rest }, some ("c06-ack-mismatch", s!"got {repr a}, the next reply owed to this client is {repr e}"))
+    | [] => (m, some ("c06-ack-unexpected", s!"got {repr a} but no reply is owed to this client"))
+
+def observeNotif (m : MonState) (l : Nat) (n : Notif) : MonState × Fail :=
+  match n with
+  | .forward p _ => observeForward m l p
+  | .ack a => observeAck m l a
+  | _ => (m, none)
+
+def observeNotifs (m : MonState) (l : Nat) : List Notif → Fail → MonState × Fail
+  | [], f => (m, f)
+  | n :: rest, f =>
+    let (m, f') := observeNotif m l n
+    observeNotifs m l rest (if f.isSome then f else f')
+
+/-- the link pushes an acknowledgement: the head of its window is released (in-order acks) -/
+def linkPushes (m : MonState) (l : Nat) (p : Packet) : MonState :=
+  let lm := getL m l
+  match p with
+  | .puback pk => setL m l { lm with window := lm.window.filter (· != pk) }
+  | .pubrec pk => setL m l { lm with window := lm.window.filter (· != pk) }
+  | _ => m
+
+/-! ### ghost events -/
+
+def closeSubs (subs : List Sub) (m : MonState) : List Sub :=
+  subs.map (fun s => match s.closedAt with | some _ => s | none => { s with closedAt := some (histOf m s.idx).length, replayOpen := false })
+
+/-- resume points of a persistent session: for every subscription, the oldest forwarded and
+    unacknowledged QoS>0 entry if any, else where it stopped -/
+def resumeSubs (lm : LinkMon) : List Sub :=
+  let cfg := lm.configs.head?.getD []
+  (lm.subs.zipIdx).filterMap fun (s, i) =>
+    match s.closedAt with
+    | some _ => none
+    | none =>
+      let ptr := cfg[i]?.getD s.start
+      let unacked := lm.pendingAcks.filterMap (fun p => if p.subIx == some i then p.abs else none)
+      let resume := match unacked.head? with | some a => min a ptr | none => ptr
+      some { s with start := resume, replayOpen := false }
+
+def touchGroups (m : MonState) (client : String) : MonState :=
+  -- any membership-affecting event restarts the completeness window of every group
+  let _ := client
+  { m with groups := m.groups.map (fun g => { g with stableFrom := (histOf m g.idx).length }) }
+
+def applyGhost (m : MonState) (g : Ghost) : MonState × Fail :=
+  match g with
+  | .registered id link clientId clean sp =>
+    let lm : LinkMon := { clientId, clean, connId := some id, live := true }
+    -- persistent session resumed: subscriptions continue at their resume points
+    let (subs, sessions, fuzzy) :=
+      if clean then ([], m.sessions.filter (·.clientId != clientId), false)
+      else match m.sessions.find? (·.clientId == clientId) with
+        | some sv => (sv.subs, m.sessions.filter (·.clientId != clientId), sv.fuzzy)
+        | none => ([], m.sessions, false)
+    let lm := { lm with subs := subs, configs := [subs.map (·.start)], ambiguous := fuzzy }
+    let m := { m with sessions := sessions, liveCount := m.liveCount + 1 }
+    let m := touchGroups m clientId
+    let maxc := match m.cfg with | some c => c.maxConnections | none => 0
+    let f : Fail := if m.liveCount > maxc then some ("c19-over-limit", s!"{m.liveCount} live connections, limit {maxc}") else none
+    let dup := (m.links.zipIdx).any (fun (x, i) => i != link && x.live && x.clientId == clientId)
+    let f := if f.isNone && dup then some ("c19-two-sessions", s!"two live connections for client id {clientId}") else f
+    let _ := sp
+    (setL m link lm, f)
+  | .notRegistered link =>
+    (setL m link { clientId := "", live := false, mayConnack := false }, none)
+  | .removed id clientId clean =>
+    match linkOfConn m id with
+    | none => (m, none)
+    | some l =>
+      let lm := getL m l
+      let openSubs := lm.subs.filter (·.closedAt.isNone)
+      let sharedIdx := openSubs.any (fun s => (openSubs.filter (fun s' => s'.idx == s.idx)).length > 1)
+      let fuzzy := lm.ambiguous || lm.configs.length != 1 || lm.pendingAcks.any (fun p => p.subIx.isNone) || sharedIdx
+      let m := if clean then { m with sessions := m.sessions.filter (·.clientId != clientId) }
+               else { m with sessions := m.sessions.filter (·.clientId != clientId) ++ [{ clientId, subs := resumeSubs lm, fuzzy }] }
+      let lm := { lm with live := false, subs := closeSubs lm.subs m, expectAcks := [] }
+      let m := touchGroups m clientId
+      (setL { m with liveCount := m.liveCount - 1 } l lm, none)
+  | .accepted _ p topic =>
+    if p.retain then
+      let v := if p.payload.isEmpty then none else some p
+      ({ m with retainedHist := m.retainedHist ++ [(topic, m.t, v)] }, none)
+    else (m, none)
+  | .appended idx _ p =>
+    let hist := if idx < m.hist.length then m.hist else m.hist ++ List.replicate (idx + 1 - m.hist.length) []
+    ({ m with hist := hist.set idx ((hist[idx]?.getD []) ++ [p]) }, none)
+  | .evicted idx headAbs =>
+    -- permitted loss: cursors behind the new head jump to it
+    let bump (lm : LinkMon) : LinkMon :=
+      { lm with configs := lm.configs.map (fun cfg =>
+          (cfg.zipIdx).map (fun (ptr, i) => match lm.subs[i]? with
+            | some s => if s.idx == idx && ptr < headAbs then headAbs else ptr
+            | none => ptr)) }
+    ({ m with links := m.links.map bump,
+              sessions := m.sessions.map (fun sv => { sv with subs := sv.subs.map (fun s => if s.idx == idx && s.start < headAbs then { s with start := headAbs } else s) }),
+              groups := m.groups.map (fun g => if g.idx == idx then { g with fuzzy := true } else g) }, none)
+  | .subscribed id path qos idx cursor group isNew =>
+    match linkOfConn m id with
+    | none => (m, none)
+    | some l =>
+      let lm := getL m l
+      let m := match group with
+        | some g => if m.groups.any (fun x => x.name == g && x.idx == idx) then touchGroups m lm.clientId
+                    else touchGroups { m with groups := m.groups ++ [{ name := g, idx }] } lm.clientId
+        | none => m
+      if !isNew then (m, none) else
+      let s : Sub := { path, qos, idx, group, start := cursor.2, replayOpen := group.isNone, since := m.t }
+      let lm := { lm with subs := lm.subs ++ [s], configs := lm.configs.map (· ++ [cursor.2]) }
+      (setL m l lm, none)
+  | .unsubscribed id path =>
+    match linkOfConn m id with
+    | none => (m, none)
+    | some l =>
+      let lm := getL m l
+      let subs := lm.subs.map (fun s => if s.path == path && s.closedAt.isNone then { s with closedAt := some (histOf m s.idx).length, replayOpen := false } else s)
+      (touchGroups (setL m l { lm with subs := subs }) lm.clientId, none)
+  | .committed id a =>
+    match linkOfConn m id with
+    | none => (m, none)
+    | some l => let lm := getL m l; (setL m l { lm with expectAcks := lm.expectAcks ++ [a] }, none)
+  | .clientAcked id pkid =>
+    match linkOfConn m id with
+    | none => (m, none)
+    | some l =>
+      let lm := getL m l
+      (setL m l { lm with pendingAcks := lm.pendingAcks.filter (·.pkid != pkid) }, none)
+  | .restored id reqs =>
+    -- C08: the session resumes at the oldest unacknowledged QoS>0 message of each subscription
+    match linkOfConn m id with
+    | none => (m, none)
+    | some l =>
+      let lm := getL m l
+      if lm.ambiguous then (m, none) else
+      let bad := lm.subs.find? (fun s => s.group.isNone && s.closedAt.isNone &&
+        (reqs.any (fun r => r.filter == s.path && r.cursor.2 != s.start &&
+          -- a cursor behind the retained head is moved forward by the read itself
+          !(r.cursor.2 < s.start && (histOf m s.idx).length ≥ s.start))))
+      match bad with
+      | some s => (m, some ("c08-resume-point", s!"subscription {s.path} resumes at a different point than the oldest unacknowledged message ({s.start})"))
+      | none =>
+        if lm.subs.any (fun s => s.closedAt.isNone && !reqs.any (fun r => r.filter == s.path)) then
+          (m, some ("c08-subscription-lost", "a subscription of the persistent session has no data request after resume"))
+        else (m, none)
+  | .willSet _ => (m, none)
+  | .willCleared _ => (m, none)
+  | .willFired _ => (m, none)
+
+def applyGhosts (m : MonState) : List Ghost → Fail → MonState × Fail
+  | [], f => (m, f)
+  | g :: rest, f =>
+    let (m, f') := applyGhost m g
+    applyGhosts m rest (if f.isSome then f else f')
+
+/-- which tags count as a violation of which property -/
+def relevant (prop tag : String) : Bool :=
+  let pre (p : String) := tag.startsWith p
+  if prop == "C01" then pre "c01-"
+  else if prop == "C03" then pre "c03-" || tag == "router-panic"
+  else if prop == "C06" then pre "c06-"
+  else if prop == "C08" then pre "c08-" || pre "c01-"
+  else if prop == "C09" then pre "c09-" || tag == "c01-undelivered-at-idle"
+  else if prop == "C14" then pre "c14-" || pre "c01-" || pre "c06-" || tag == "router-panic"
+  else if prop == "C15" then pre "c15-"
+  else if prop == "C16" then pre "c16-" || pre "c01-"
+  else if prop == "C17" then pre "c17-"
+  else if prop == "C19" then pre "c19-"
+  else if prop == "C20" then pre "c20-" || pre "c01-"
+  else true
+
+def filt (prop : String) (f : Fail) : Fail :=
+  match f with
+  | some (t, d) => if relevant prop t then some (t, d) else none
+  | none => none
+
+/-- one step: the op, what the implementation showed, and the model's new ghost events -/
+def observe (prop : String) (m : MonState) (op : Op) (o : Obs) (ghosts : List Ghost) : MonState × Fail :=
+  let m := { m with t := m.t + 1 }
+  match o with
+  | .panic => (m, filt prop (some ("router-panic", "the routing core panicked")))
+  | .out out =>
+    -- link-side effects first (what the link did / saw), then what the router did
+    let (m, f1) : MonState × Fail :=
+      match op, out with
+      | .drain l, .drained _ ns => observeNotifs m l ns none
+      | .push l p, _ => (linkPushes m l p, none)
+      | .connect spec, _ =>
+        -- a new link: fresh monitor state for it
+        (setL m spec.link { clientId := spec.clientId, clean := spec.clean }, none)
+      | _, _ => (m, none)
+    let (m, f2) := applyGhosts m ghosts none
+    (m, filt prop (if f1.isSome then f1 else f2))
+
+/-- checks at a point where the harness drove the router to idle and every client acknowledged -/
+def atIdle (prop : String) (m : MonState) : Fail :=
+  let fails : List (String × String) := (m.links.zipIdx).filterMap fun (lm, l) =>
+    if !lm.live then none else
+    -- C06: nothing owed
+    if !lm.expectAcks.isEmpty then
+      some ((match lm.expectAcks.head? with | some (.connack _ _) => "c03-not-serving" | _ => "c06-ack-missing"),
+            s!"link {l}: {lm.expectAcks.length} replies still owed at idle, first {repr (lm.expectAcks.head?)}")
+    else if lm.ambiguous then none
+    else
+      -- C01: some attribution has every open non-shared subscription caught up
+      let done (cfg : List Nat) : Bool := (lm.subs.zipIdx).all fun (s, i) =>
+        s.closedAt.isSome || s.group.isSome || (cfg[i]?.getD s.start) ≥ (histOf m s.idx).length
+      if !lm.configs.any done then
+        some ("c01-undelivered-at-idle", s!"link {l} ({lm.clientId}): a subscription has undelivered matching messages although the broker is idle")
+      else
+        -- C15: a new non-shared subscription got the retained message of every matching topic
+        let topics := dedup (m.retainedHist.map (·.1))
+        let maxOut := match m.cfg with | some c => c.maxOutgoingPacketCount | none => 0
+        let miss := lm.subs.findSome? fun s =>
+          if !s.replayOpen || s.closedAt.isSome then none else
+          let due := topics.filter fun t =>
+            topicMatches t s.path &&
+            -- retained when the subscription took effect and never cleared since
+            (match ((m.retainedHist.filter (fun e => e.1 == t && e.2.1 < s.since)).getLast?) with
+             | some (_, _, some _) => true | _ => false) &&
+            !(m.retainedHist.any (fun e => e.1 == t && e.2.1 ≥ s.since && e.2.2.isNone))
+          let fits := if s.qos == 0 then due.length ≤ maxOut else lm.maxWindow + due.length ≤ 100
+          if !fits then none else
+          (due.find? (fun t => !s.replayed.contains t)).map (fun t => (s.path, t))
+        match miss with
+        | some (path, t) => some ("c15-replay-missing", s!"link {l}: new subscription {path} did not receive the retained message of topic {t}")
+        | none => none
+  let gfails : List (String × String) := m.groups.filterMap fun g =>
+    if g.fuzzy then none else
+    let members := m.links.filter (fun lm => lm.live && lm.subs.any (fun s => s.group == some g.name && s.idx == g.idx && s.closedAt.isNone))
+    if members.isEmpty then none else
+    let h := histOf m g.idx
+    let missing := (List.range h.length).filter (fun a => a ≥ g.stableFrom && !g.delivered.contains a)
+    if missing.isEmpty then none
+    else some ("c17-undelivered-at-idle", s!"group {g.name}: entries {missing.take 5} were forwarded to no member although the group stayed non-empty")
+  filt prop ((fails ++ gfails).find? (fun f => relevant prop f.1))
 
 end Router.Monitors
